@@ -156,7 +156,25 @@ impl Property for C19 {
             }
             c.into_iter().collect()
         });
-        let honoured = (sel(&["foo", "my-thing", "zorp", "blub-blub", "wibble-wobble"]), 1..=3usize).prop_map(|(n, k)| format!("{}({})", n, ["$a", "$b", "$c"][..k].join(",")));
+        // name($a,$b,$c), chained name($a)($b)($c) / name($a,$b)($c), nested name(other($a),$b), with literal arguments mixed in
+        let honoured = (sel(&["foo", "my-thing", "zorp", "blub-blub", "wibble-wobble"]), 1..=3usize, proptest::collection::vec(any::<bool>(), 3), 0..4u8, sel(&["quux", "inner-thing"])).prop_map(|(n, k, cuts, shape, inner)| {
+            let refs = &["$a", "$b", "$c"][..k];
+            match shape {
+                0 => format!("{}({})", n, refs.join(",")),
+                1 => {
+                    // chained applications: a new argument list starts where cuts[i] is set
+                    let mut out = format!("{}({}", n, refs[0]);
+                    for (i, r) in refs.iter().enumerate().skip(1) {
+                        out.push_str(if cuts[i] { ")(" } else { "," });
+                        out.push_str(r);
+                    }
+                    out.push(')');
+                    out
+                }
+                2 => format!("{}({}({}){})", n, inner, refs[0], refs[1..].iter().map(|r| format!(",{}", r)).collect::<String>()),
+                _ => format!("{}({})(7)({})", n, refs[0], if k > 1 { refs[1..].join(",") } else { "last".to_string() }),
+            }
+        });
         let arbitrary = prop_oneof![2 => "\\PC{0,12}", 1 => "[ -~]{0,16}", 1 => sel(&["", " ", "(", ")", "$", ":", "f(", "f)", "f(($a)", "$a$b", "f($a)(", "f($zz)", "1.2.3", "-", "--1", "f(:p)", ":p:q", "f($a,)", ",", "f(g(h($a)))", "$a:prefix:infix", "_($a,$b)", "f ( $a , $b )", "\u{1F600}($a)", "é($a)", "a b", "f($a) g($b)", "((($a)))"]).prop_map(|s| s.to_string())];
         let intent = prop_oneof![
             3 => grammatical().prop_map(|s| ("grammatical".to_string(), s)),
@@ -284,6 +302,6 @@ impl Property for C19 {
         (60000, 600000)
     }
     fn rule(&self) -> String {
-        "cases = intent strings from a generator of the grammar in infer_intent.rs (names, numbers, $refs, :properties, nested / chained applications), single-edit mutants of those (delete / insert / duplicate / truncate / replace / swap), arbitrary Unicode and hand-picked edge strings, and the honoured form name($a,..) with a made-up name; placed on 8 kinds of host element inside x = HOST whose operands are distinct decimal literals carrying arg=a,b,c; both values of IntentErrorRecovery; oracle = no panic; IgnoreIntent: speech is Ok, and for strings that a reference recogniser classifies as certainly illegal (blank, unbalanced parentheses, punctuation where a name must start, missing argument, $ without name, dangling $ref) it equals the speech with the attribute removed; Error: certainly illegal strings yield Err; honoured form: speech mentions the name and every referenced literal; speech is repeatable and get_navigation_mathml afterwards equals the MathML returned by set_mathml; non-trivial = illegal with >= 2 structural characters, or legal with a $ref inside an application".into()
+        "cases = intent strings from a generator of the grammar in infer_intent.rs (names, numbers, $refs, :properties, nested / chained applications), single-edit mutants of those (delete / insert / duplicate / truncate / replace / swap), arbitrary Unicode and hand-picked edge strings, and the honoured forms name($a,..), chained name($a)($b)($c), nested name(other($a),$b) and name($a)(7)(..) with made-up names; placed on 8 kinds of host element inside x = HOST whose operands are distinct decimal literals carrying arg=a,b,c; both values of IntentErrorRecovery; oracle = no panic; IgnoreIntent: speech is Ok, and for strings that a reference recogniser classifies as certainly illegal (blank, unbalanced parentheses, punctuation where a name must start, missing argument, $ without name, dangling $ref) it equals the speech with the attribute removed; Error: certainly illegal strings yield Err; honoured form: speech mentions the name and every referenced literal; speech is repeatable and get_navigation_mathml afterwards equals the MathML returned by set_mathml; non-trivial = illegal with >= 2 structural characters, or legal with a $ref inside an application".into()
     }
 }
